@@ -4,7 +4,7 @@ sys.path.insert(0, os.path.dirname(os.path.abspath(__file__)))
 import vlib
 
 BAD_CHAIN = ("untrusted", "fakeroot", "fakerootsent", "fakeroot1", "expired", "notyet", "caexpired", "issuernotca", "issuernobc", "badsig", "cabadsig",
-             "wrongissuerkey", "leafku", "pathlen", "encbadsig", "encexpired", "encotherissuer", "encselfsigned", "encwrongissuerkey")
+             "wrongissuerkey", "leafku", "leafkunc", "leafencnc", "pathlen", "encbadsig", "encexpired", "encotherissuer", "encselfsigned", "encwrongissuerkey")
 
 
 def cred_facts(name, trust):
